@@ -6,6 +6,8 @@ from checks import wirecommon as W
 def judge_file(c, x, cases, n, what):
     mf = os.path.join(c.wd, "fault_verdicts_%s.ndjson" % what); tr = os.path.join(c.wd, "untrusted_%s.ndjson" % what)
     p = vlib.run([x, "fault", cases, mf, tr])
+    if p.returncode in (-9, 137, -15) and "ALLOC-CAP" not in p.stderr:
+        raise vlib.ToolError("wire fault was killed (exit %d), not a verdict" % p.returncode)
     if p.returncode != 0:
         last = [l for l in p.stderr.splitlines() if l.startswith("@")]
         rp = c.replay_file("abort_%s.txt" % what, "case index " + (last[-1] if last else "?") + " of " + cases + "\n" + p.stderr[-1500:])
@@ -59,6 +61,8 @@ def run(tier, replay=None):
     ff = os.path.join(wd, "fuzz_violations.ndjson")
     cnt = 400000 if thorough else 60000
     p = vlib.run([x, "fuzz", str(vlib.seed()), str(cnt), ff])
+    if p.returncode in (-9, 137, -15) and "ALLOC-CAP" not in p.stderr:
+        raise vlib.ToolError("wire fuzz was killed (exit %d), not a verdict" % p.returncode)
     if p.returncode != 0:
         last = [l for l in p.stderr.splitlines() if l.startswith("@")]
         rp = c.replay_file("abort_fuzz.txt", (last[-1] if last else "?") + "\n" + p.stderr[-1500:])
